@@ -28,6 +28,8 @@ VALS = {
     "int": [0, 1, -5, 9007199254740993, 7],
     "float": [1.5, -2.25, 0.0, "inf", "-inf", "-0.0", 1e300],
     "str": ["a", "ä", "x y", "0", "None", "nan", "q\"r", "line\nbreak"],
+    # text that merely LOOKS like other types: it is text, and must come back as the same text in a string column
+    "strlike": ["2019-09-16", "2020-01-01", "2021-12-31 10:00:00", "2020-01-01T00:00:00", "1", "2.5", "true", "null", "1e3", "00501"],
     "date": [0, 1, 18000, 19000, -719162],
     "datetime": [0, 1, 1600000000000000, -62135596800000000],
     # object columns: what a boolean / integer column with missing values is in a data frame
@@ -44,6 +46,11 @@ def gen_case(rng, tier):
     for j in range(ncol):
         kind = rng.choice(KINDS)
         vals = [rng.choice(VALS[kind]) for _ in range(n)]
+        if kind == "str" and rng.random() < 0.35:
+            # a whole string column of one look-alike family (all dates, all timestamps, all numbers, ...)
+            like = VALS["strlike"]
+            fam = rng.choice([like[:2], like[2:4], like[4:6] + like[8:], like[6:8], like])
+            vals = [rng.choice(fam) for _ in range(n)]
         if kind in NA:
             mode = rng.random()
             for i in range(n):
